@@ -819,7 +819,7 @@ def c15(prop, tier, seed):
 
 @check("C02")
 def c02(prop, tier, seed):
-    return core_check(prop, tier, seed, ["ps2q", "pub2", "bc2", "batch"], ["ps2q", "pub2", "bc2", "batch", "ps3", "ps2"],
+    return core_check(prop, tier, seed, ["ps2q", "pub2", "bc2", "batch", "flush3"], ["ps2q", "pub2", "bc2", "batch", "flush3", "ps3", "ps2"],
                       "Compared: mailbox lengths, events handed to handlers (payload, sender, topic, system flag), payload release by the library.", sim_cfgs=["mix"])
 
 
@@ -837,7 +837,7 @@ def c19(prop, tier, seed):
 
 @check("C13")
 def c13(prop, tier, seed):
-    return core_check(prop, tier, seed, ["batch", "btmo", "kevl", "tbb", "tbbt", "tbbte"], ["batch", "btmo", "kevl", "tbb", "tbbt", "tbbte", "stashb"],
+    return core_check(prop, tier, seed, ["batch", "btmo", "kevl", "tbb", "tbbte"], ["batch", "btmo", "kevl", "tbb", "tbbt", "tbbte", "stashb"],
                       "Focus: low/normal/high priority subscriptions, batch sizes, which arrival triggers a handler invocation and with which events.", Dq=7, Dt=9)
 
 
@@ -875,7 +875,7 @@ def c20(prop, tier, seed):
 
 @check("C18")
 def c18(prop, tier, seed):
-    return core_check(prop, tier, seed, ["tb", "tbtmr", "tbb", "tbbt", "tbbte"], ["tb", "tbtmr", "tbb", "tbbt", "tbbte"],
+    return core_check(prop, tier, seed, ["tb", "tbtmr", "tbb", "tbbt"], ["tb", "tbtmr", "tbb", "tbbt", "tbbte"],
                       "Focus: token bucket: every kind of rate-limited call with 0, 1, 2 tokens (EAGAIN and no effect without a token), refill ticks capped at the burst, rate 0 and stop remove the limit; token count compared after every step.", Dq=6, Dt=8)
 
 
